@@ -25,7 +25,7 @@ Nothing is executed.  The comparison is purely on normal forms; no solver, no sa
 import ast
 import copy
 
-from . import summ
+from . import summ, nf
 from .model import src
 
 MAX_REGION_PATHS = 400
@@ -41,34 +41,32 @@ def _dump(n):
     return ast.dump(n, include_attributes=False)
 
 
+VALUE_KINDS = {"store", "let", "carry", "final", "call", "yield", "enter", "enter-loop", "expr"}
+
+
 def effect_text(ef):
     k, t, e = ef
-    if k == "store":
-        return "%s = %s" % (t, summ.arith_text(e))
-    if k == "expr":
-        return "expr " + src(summ.simplify(e))
-    if k in ("let", "carry", "final"):
-        return "%s %s := %s" % (k, t, summ.arith_text(e) if isinstance(e, ast.AST) else e)
-    if k == "call":
-        return None         # calls are part of the texts of the statements that make them
-    if k == "loop":
-        return "loop " + t
+    if k in VALUE_KINDS and isinstance(e, ast.AST) and isinstance(e, ast.expr):
+        return "%s %s := %s" % (k, t, summ.arith_text(e))
     return "%s %s" % (k, t)
 
 
 def full_outcome(p):
-    parts = []
-    for ef in p.effects:
-        t = effect_text(ef)
-        if t is not None:
-            parts.append(t)
+    effs = list(p.effects)
     k, e = p.result if p.result else ("none", None)
-    if k == "return":
-        parts.append("return " + summ.arith_text(e))
-    elif k == "raise":
-        parts.append("raise " + (src(summ.simplify(e)) if e is not None else ""))
-    elif k == "jump":
-        parts.append("jump " + src(e))
+    if k in ("return", "raise"):
+        # leaving a loop by `break` only to return is leaving it by `return`
+        while effs and effs[-1][0] == "endloop":
+            j = len(effs) - 2
+            while j >= 0 and effs[j][0] == "carry":
+                j -= 1
+            if j >= 0 and effs[j][0] == "break" and effs[j][1] == effs[-1][1]:
+                del effs[j:]
+            else:
+                break
+    parts = [effect_text(ef) for ef in effs]
+    if k in ("return", "raise"):
+        parts.append("%s %s" % (k, summ.arith_text(e) if e is not None else ""))
     else:
         parts.append(k)
     return " ;; ".join(parts)
@@ -109,14 +107,17 @@ def region_equivalent(ra, rb, fa=None, fb=None):
         names &= (set(_loads(fa)) | set(_loads(fb)))
     names = sorted(names)
     try:
-        pa = summ.Summariser(ra, "<current>", loops="body", safe=True, final_names=names, max_paths=MAX_REGION_PATHS).run()
-        pb = summ.Summariser(rb, "<baseline>", loops="body", safe=True, final_names=names, max_paths=MAX_REGION_PATHS).run()
-    except summ.Unsupported:
+        pa = nf.NF(ra, final_names=names, max_paths=MAX_REGION_PATHS).run()
+        pb = nf.NF(rb, final_names=names, max_paths=MAX_REGION_PATHS).run()
+    except summ.Unsupported as e:
+        if DEBUG is not None and len(DEBUG) < 50:
+            DEBUG.append((len(ra), len(rb), 0, 0, None, "not computable: %s" % e))
         return None
     except RecursionError:
         return None
     if len(pa) > MAX_REGION_PATHS or len(pb) > MAX_REGION_PATHS:
         return None
+    pa, pb = summ.boolify(pa), summ.boolify(pb)
     ta = summ.table(pa, full_outcome)
     tb = summ.table(pb, full_outcome)
     ok, det = summ.compare(ta, tb)
@@ -173,7 +174,22 @@ def blocks_equivalent(sa_, sb_, depth=0, ta=(), tb=()):
                 all(blocks_equivalent(x.body, y.body, depth + 1, [a] + ta2, [b] + tb2) for x, y in zip(a.handlers, b.handlers))
     # several statements: pair them one to one when the counts agree
     if len(sa_) == len(sb_) and len(sa_) > 1 and depth < 12:
-        return all(blocks_equivalent([x], [y], depth + 1, sa_[i + 1:] + ta2, sb_[i + 1:] + tb2) for i, (x, y) in enumerate(zip(sa_, sb_)))
+        if all(blocks_equivalent([x], [y], depth + 1, sa_[i + 1:] + ta2, sb_[i + 1:] + tb2) for i, (x, y) in enumerate(zip(sa_, sb_))):
+            return True
+    # identical statements inside the region split it into independent parts
+    if len(sa_) + len(sb_) > 2 and depth < 12:
+        import difflib
+        da, db = [_dump(x) for x in sa_], [_dump(x) for x in sb_]
+        ops = difflib.SequenceMatcher(None, da, db, autojunk=False).get_opcodes()
+        if any(tag == "equal" for tag, *_ in ops):
+            ok = True
+            for tag, i1, i2, j1, j2 in ops:
+                if tag == "equal":
+                    continue
+                if not blocks_equivalent(sa_[i1:i2], sb_[j1:j2], depth + 1, sa_[i2:] + ta2, sb_[j2:] + tb2):
+                    ok = False
+                    break
+            return ok
     return False
 
 
